@@ -35,6 +35,8 @@ def plainFacts {f : CField} (hs : isScalarKind f = true) (hq : fieldQuals f = []
     FieldFacts f where
   qualNames := []
   bodyNames := [wRules]
+  blockNames := []
+  tailP := fun _ _ => True
   qualVal := freshMsg (kindSchema f)
   typeVal := .msg ((List.replicate (kindSchema f).props.length false).set ri (!rules.isEmpty))
     ((List.replicate (kindSchema f).props.length Node.absent).set ri (rulesNode sR rules))
@@ -43,6 +45,12 @@ def plainFacts {f : CField} (hs : isScalarKind f = true) (hq : fieldQuals f = []
   specName := kindSpec_name
   specTypeSelect := kindSpec_typeSelect
   msg := hmsg
+  namesSub := by
+    intro n hn
+    simp only [List.not_mem_nil, List.mem_singleton, false_or] at hn
+    subst hn; decide
+  qualSub := by intro _ n hn; cases hn
+  blockSub := by intro kw hkw; cases hkw
   found := by
     intro d n hn
     simp only [List.mem_singleton] at hn
@@ -50,13 +58,14 @@ def plainFacts {f : CField} (hs : isScalarKind f = true) (hq : fieldQuals f = []
     rw [findBlock_rules_self d halias (propInfo_hasProperty hpiR)]; rfl
   runQ := by
     intro outer root d _
-    refine ⟨typeScope outer (tcfOf f d) root, kindSpec f, [], rfl, ?_⟩
+    refine ⟨typeScope outer (tcfOf f d) root, kindSpec f, [], rfl, trivial, ?_⟩
     rw [hq]; exact walkQualifiers_nil _ _ _ _
   runB := by
-    intro sc pfx ek a b C hr
+    intro sc pfx ek a b C hr _
     rw [hb]
     have hlt := propInfo_lt hpiR
-    exact hr.rules (by simp) hR (findBlock_rules_self _ halias (propInfo_hasProperty hpiR)) hpiR hspecR
+    exact hr.rules (List.mem_singleton.mpr rfl) hR
+      (findBlock_rules_self _ halias (propInfo_hasProperty hpiR)) hpiR hspecR
       (by rw [List.getElem?_replicate, if_pos hlt]) (by rw [List.getElem?_replicate, if_pos hlt]) rules hok hdist
 
 /-! ## The kinds whose only lines are rules -/
@@ -118,6 +127,8 @@ def timestampFacts (rules : J5V.Compile.Rules) (h : rulesOk j5Env b!"j5.schema.v
 def anyFacts : FieldFacts .any where
   qualNames := []
   bodyNames := []
+  blockNames := []
+  tailP := fun _ _ => True
   qualVal := freshMsg sAnyField
   typeVal := freshMsg sAnyField
   pi := kind_pi2 rfl
@@ -128,12 +139,15 @@ def anyFacts : FieldFacts .any where
     simp only [fieldMsg, fieldOneof, typeSchema]
     rw [mkMsg_of schemaOf_Field, mkMsg_of schemaOf_AnyField]
     rfl
+  namesSub := by intro n hn; simp at hn
+  qualSub := by intro _ n hn; cases hn
+  blockSub := by intro kw hkw; cases hkw
   found := by intro d n hn; cases hn
   runQ := by
     intro outer root d _
-    exact ⟨typeScope outer (tcfOf .any d) root, kindSpec .any, [], rfl, walkQualifiers_nil _ _ _ _⟩
+    exact ⟨typeScope outer (tcfOf .any d) root, kindSpec .any, [], rfl, trivial, walkQualifiers_nil _ _ _ _⟩
   runB := by
-    intro sc pfx ek a b C _
+    intro sc pfx ek a b C _ _
     exact doBody_nil _ _ _
 
 /-! ## `integer:FMT`, `float:FMT` -/
@@ -142,6 +156,8 @@ def integerFacts (fmt : J5V.Compile.IntFmt) (rules : J5V.Compile.Rules) (l : Boo
     (h : rulesOk j5Env b!"j5.schema.v1.IntegerField" rules = true) : FieldFacts (.integer fmt rules l) where
   qualNames := [b!"format"]
   bodyNames := [wRules]
+  blockNames := []
+  tailP := fun _ _ => True
   qualVal := .msg [true, false, false, false] [sEnum (intFmtNumber fmt), .absent, .absent, .absent]
   typeVal := .msg [true, !rules.isEmpty, false, false]
     [sEnum (intFmtNumber fmt), rulesNode sIntegerRules rules, .absent, .absent]
@@ -154,6 +170,12 @@ def integerFacts (fmt : J5V.Compile.IntFmt) (rules : J5V.Compile.Rules) (l : Boo
     rw [rulesVals_eq rulesSchema_Integer schemaOf_IntegerRules, mkMsg_of schemaOf_Field,
       mkMsg_of schemaOf_IntegerField]
     cases rules <;> rfl
+  namesSub := by
+    intro n hn
+    simp only [List.mem_singleton] at hn
+    rcases hn with rfl | rfl <;> decide
+  qualSub := by intro _ n hn; exact .inl (List.mem_singleton.mp hn)
+  blockSub := by intro kw hkw; cases hkw
   found := by
     intro d n hn
     simp only [List.mem_singleton] at hn
@@ -164,7 +186,7 @@ def integerFacts (fmt : J5V.Compile.IntFmt) (rules : J5V.Compile.Rules) (l : Boo
     rfl
   runQ := by
     intro outer root d hmiss
-    refine ⟨typeScope outer (cfOf sIntegerField specIntegerField d) root, specIntegerField, [], rfl, ?_⟩
+    refine ⟨typeScope outer (cfOf sIntegerField specIntegerField d) root, specIntegerField, [], rfl, trivial, ?_⟩
     refine walkQualifiers_attr (tagSpec := ⟨b!"format", none, none, false, false⟩)
       (show specIntegerField.qualifier = _ by decide +kernel) rfl (checkBang_none _ _ rfl) ?_
     refine (setAttr_direct (n := b!"format") (pos := none) (t := [false, false, false, false])
@@ -175,9 +197,9 @@ def integerFacts (fmt : J5V.Compile.IntFmt) (rules : J5V.Compile.Rules) (l : Boo
       pi_IntegerField_format rfl rfl (.inl rfl) (asArray_tag _) (intFmt_scalar fmt)).conv ?_
     rw [storeNode_intFmt]; rfl
   runB := by
-    intro sc pfx ek a b C hr
+    intro sc pfx ek a b C hr _
     have hu := rulesOk_unpack h rulesSchema_Integer schemaOf_IntegerRules
-    exact hr.rules (by simp) rulesOK_Integer
+    exact hr.rules (List.mem_singleton.mpr rfl) rulesOK_Integer
       (findBlock_rules_self (sT := sIntegerField) (specT := specIntegerField) _
         (show aliasLookup wRules specIntegerField.aliases = none by decide +kernel)
         (propInfo_hasProperty pi_Integer_rules)) pi_Integer_rules
@@ -187,6 +209,8 @@ def floatFacts (fmt : J5V.Compile.FloatFmt) (rules : J5V.Compile.Rules) (l : Boo
     (h : rulesOk j5Env b!"j5.schema.v1.FloatField" rules = true) : FieldFacts (.float fmt rules l) where
   qualNames := [b!"format"]
   bodyNames := [wRules]
+  blockNames := []
+  tailP := fun _ _ => True
   qualVal := .msg [true, false, false, false] [sEnum (floatFmtNumber fmt), .absent, .absent, .absent]
   typeVal := .msg [true, !rules.isEmpty, false, false]
     [sEnum (floatFmtNumber fmt), rulesNode sFloatRules rules, .absent, .absent]
@@ -199,6 +223,12 @@ def floatFacts (fmt : J5V.Compile.FloatFmt) (rules : J5V.Compile.Rules) (l : Boo
     rw [rulesVals_eq rulesSchema_Float schemaOf_FloatRules, mkMsg_of schemaOf_Field,
       mkMsg_of schemaOf_FloatField]
     cases rules <;> rfl
+  namesSub := by
+    intro n hn
+    simp only [List.mem_singleton] at hn
+    rcases hn with rfl | rfl <;> decide
+  qualSub := by intro _ n hn; exact .inl (List.mem_singleton.mp hn)
+  blockSub := by intro kw hkw; cases hkw
   found := by
     intro d n hn
     simp only [List.mem_singleton] at hn
@@ -209,7 +239,7 @@ def floatFacts (fmt : J5V.Compile.FloatFmt) (rules : J5V.Compile.Rules) (l : Boo
     rfl
   runQ := by
     intro outer root d hmiss
-    refine ⟨typeScope outer (cfOf sFloatField specFloatField d) root, specFloatField, [], rfl, ?_⟩
+    refine ⟨typeScope outer (cfOf sFloatField specFloatField d) root, specFloatField, [], rfl, trivial, ?_⟩
     refine walkQualifiers_attr (tagSpec := ⟨b!"format", none, none, false, false⟩)
       (show specFloatField.qualifier = _ by decide +kernel) rfl (checkBang_none _ _ rfl) ?_
     refine (setAttr_direct (n := b!"format") (pos := none) (t := [false, false, false, false])
@@ -220,9 +250,9 @@ def floatFacts (fmt : J5V.Compile.FloatFmt) (rules : J5V.Compile.Rules) (l : Boo
       pi_FloatField_format rfl rfl (.inl rfl) (asArray_tag _) (floatFmt_scalar fmt)).conv ?_
     rw [storeNode_floatFmt]; rfl
   runB := by
-    intro sc pfx ek a b C hr
+    intro sc pfx ek a b C hr _
     have hu := rulesOk_unpack h rulesSchema_Float schemaOf_FloatRules
-    exact hr.rules (by simp) rulesOK_Float
+    exact hr.rules (List.mem_singleton.mpr rfl) rulesOK_Float
       (findBlock_rules_self (sT := sFloatField) (specT := specFloatField) _
         (show aliasLookup wRules specFloatField.aliases = none by decide +kernel)
         (propInfo_hasProperty pi_Float_rules)) pi_Float_rules
